@@ -411,7 +411,7 @@ CATALOGUE['C03'] = [
   (F, 'R-AXISOFVAR', _F, "                        newvals = np.apply_along_axis(dfunc, di, newvals)", "                        newvals = np.apply_along_axis(dfunc, di, varo[...])"),
   (F, 'R-MASKKEEP', _F, "            newvals = varo[...]\n            dik = list(enumerate(vdims))", "            newvals = np.asarray(varo[...])\n            dik = list(enumerate(vdims))"),
   (F, 'R-DIMLENOUT', _F, "                    newdl = getattr(dvar[...], df)(keepdims=True).size", "                    newdl = 1"),
-  (F, 'R-UNTOUCHED', _F, "            newvaro = outf.copyVariable(varo, key=vark, withdata=False)\n            newvaro[...] = newvals\n        if verbose > 0:\n            print()\n\n        return outf", "            if any(dk in dimfuncs for dk in vdims):\n                newvaro = outf.copyVariable(varo, key=vark, withdata=False)\n                newvaro[...] = newvals\n        if verbose > 0:\n            print()\n\n        return outf"),
+  (F, 'R-UNTOUCHED', _F, "            newvaro = outf.copyVariable(varo, key=vark, dtype=newvals.dtype,\n                                        withdata=False)\n            newvaro[...] = newvals\n        if verbose > 0:\n            print()\n\n        return outf", "            if any(dk in dimfuncs for dk in vdims):\n                newvaro = outf.copyVariable(varo, key=vark, dtype=newvals.dtype, withdata=False)\n                newvaro[...] = newvals\n        if verbose > 0:\n            print()\n\n        return outf"),
   (S, None, _F, "                        newvals = getattr(newvals, dfunc)(\n                            axis=di, keepdims=True)", "                        newvals = getattr(newvals, dfunc)(\n                            keepdims=True, axis=di)"),
   (F, 'R-AXISORDER', _F, "            dik = list(enumerate(vdims))\n            for di, dk in dik[::-1]:", "            dik = list(enumerate(vdims))\n            for di, dk in dik:"),
 ]
@@ -587,6 +587,45 @@ CATALOGUE['C08'] += [
 
 # ---- variants taken from committed seeded changes (one file, any number of hunks): the rule named here must fire on the patched text.
 # A seed whose hunks no longer match the tree is skipped (reported as such), never a failure.
+
+# ---- entries for the defects repaired after the fifth refactoring wave (leads: "Clean-tree defects" notes of the sub-agents)
+_GCNC = 'geoschemfiles/_gcnc.py'
+CATALOGUE['C03'] += [
+  (F, 'R-RESDTYPE', 'core/_files.py', "            newvaro = outf.copyVariable(varo, key=vark, dtype=newvals.dtype,\n                                        withdata=False)", "            newvaro = outf.copyVariable(varo, key=vark, withdata=False)"),
+  (F, 'R-RESDTYPE', 'core/_files.py', "key=vark, dtype=newvals.dtype,\n", "key=vark, dtype=varo.dtype,\n"),
+  (S, None, 'core/_files.py', "            newvaro = outf.copyVariable(varo, key=vark, dtype=newvals.dtype,\n                                        withdata=False)", "            newdtype = newvals.dtype\n            newvaro = outf.copyVariable(varo, key=vark, dtype=newdtype,\n                                        withdata=False)"),
+]
+CATALOGUE['C04'] += [
+  (F, 'R-STACKSIG', _GCNC, "    def stack(self, other, stackdim):", "    def stack(self, other, dimkey):\n        stackdim = dimkey"),
+  (F, 'R-STACKSIG', _GCNC, "        if stackdim != 'time':\n            # the time axis is that of this file; nothing to rebuild\n            return outf\n", "        if stackdim != 'time':\n            tvar = outf.variables['time']\n            tvar.units = 'hours since ' + rdate.strftime('%Y-%m-%d')\n            return outf\n"),
+  (S, None, _GCNC, "    def stack(self, other, stackdim):", "    def stack(self, other, stackdim, **unused):"),
+  (S, None, _GCNC, "        if stackdim != 'time':\n            # the time axis is that of this file; nothing to rebuild\n            return outf\n", "        if not stackdim == 'time':\n            return outf\n"),
+]
+CATALOGUE['C07'] += [
+  (F, 'R-CHARTYPE', 'pncgen.py', "            if typecode == 'S':\n                # numpy's code for a character array; 'S' alone would be\n                # read as a zero-length string type\n                typecode = 'c'\n", ""),
+  (F, 'R-CHARTYPE', 'pncgen.py', "            if typecode == 'S':\n                # numpy's code for a character array; 'S' alone would be\n                # read as a zero-length string type\n                typecode = 'c'\n", "            if typecode == 'S':\n                typecode = 'S0'\n"),
+  (S, None, 'pncgen.py', "            if typecode == 'S':\n                # numpy's code for a character array; 'S' alone would be\n                # read as a zero-length string type\n                typecode = 'c'\n", "            typecode = 'S1' if typecode == 'S' else typecode\n"),
+  (S, None, 'pncgen.py', "            if typecode == 'S':\n                # numpy's code for a character array; 'S' alone would be\n                # read as a zero-length string type\n                typecode = 'c'\n", "            typecode = {'S': 'c'}.get(typecode, typecode)\n"),
+]
+CATALOGUE['C16'] += [
+  (F, 'R-STEPINT', 'core/_files.py', "                    dt = timedelta(seconds=int(sh + sm + ss))", "                    dt = timedelta(seconds=sh + sm + ss)"),
+  (F, 'R-STEPINT', 'core/_files.py', "                    dt = timedelta(seconds=int(sh + sm + ss))", "                    dt = timedelta(hours=tstep // 10000, seconds=int(sm + ss))"),
+  (S, None, 'core/_files.py', "                    dt = timedelta(seconds=int(sh + sm + ss))", "                    dt = timedelta(seconds=float(sh + sm + ss))"),
+  (S, None, 'core/_files.py', "                    tstep = getattr(self, 'TSTEP')\n", "                    tstep = int(getattr(self, 'TSTEP'))\n"),
+]
+CATALOGUE['C19'] += [
+  (F, 'R-INDEPUNITS', _FFI, "    print(delim.join([f.INDEPENDENT_VARIABLE,\n                      getattr(f.variables[f.INDEPENDENT_VARIABLE], 'units',\n                              'unknown')]), file=outfile)", "    print(f.INDEPENDENT_VARIABLE, file=outfile)"),
+  (F, 'R-INDEPUNITS', _FFI, "                      getattr(f.variables[f.INDEPENDENT_VARIABLE], 'units',\n                              'unknown')]), file=outfile)", "                      getattr(f.variables[depvarkeys[0]], 'units',\n                              'unknown')]), file=outfile)"),
+  (S, None, _FFI, "    print(delim.join([f.INDEPENDENT_VARIABLE,\n                      getattr(f.variables[f.INDEPENDENT_VARIABLE], 'units',\n                              'unknown')]), file=outfile)", "    indepvar = f.variables[f.INDEPENDENT_VARIABLE]\n    print(delim.join([f.INDEPENDENT_VARIABLE, getattr(indepvar, 'units', 'unknown')]), file=outfile)"),
+  (S, None, _FFI, "    print('%d, %d' % (len(myattrs) + len(depvarkeys) + 15, 1001), file=outfile)", "    nheader = len(myattrs) + len(depvarkeys) + 15\n    print('%d, 1001' % (nheader,), file=outfile)"),
+  (F, 'R-LINEORDER', _FFI, "    print('%d, %d' % (len(myattrs) + len(depvarkeys) + 15, 1001), file=outfile)", "    print('%d, 1010' % (len(myattrs) + len(depvarkeys) + 15,), file=outfile)"),
+  (S, None, _FFI, "    print(delim.join(['1' for k in depvarkeys]), file=outfile)", "    print(delim.join(['1'] * len(depvarkeys)), file=outfile)"),
+]
+CATALOGUE['C01'] += [
+  (S, None, 'core/_files.py', "        if isinstance(self, netcdf):\n            if unlimited:\n                ndv = self.createDimension(key, None)\n            else:\n                ndv = self.createDimension(key, dimlen)\n        else:\n            ndv = self.createDimension(key, dimlen)\n            ndv.setunlimited(unlimited)", "        ondisk = isinstance(self, netcdf)\n        ndv = self.createDimension(\n            key, None if (ondisk and unlimited) else dimlen)\n        if not ondisk:\n            ndv.setunlimited(unlimited)"),
+  (F, 'R-UNLIM', 'core/_files.py', "        if isinstance(self, netcdf):\n            if unlimited:\n                ndv = self.createDimension(key, None)\n            else:\n                ndv = self.createDimension(key, dimlen)\n        else:\n            ndv = self.createDimension(key, dimlen)\n            ndv.setunlimited(unlimited)", "        ondisk = isinstance(self, netcdf)\n        ndv = self.createDimension(\n            key, None if unlimited else dimlen)\n        if not ondisk:\n            ndv.setunlimited(unlimited)"),
+]
+
 SEED_VARIANTS = {
  'C01': [('C01-x2', 'R-EVALDIMS'), ('C01-x3', 'R-NEWLEN'), ('C01-y1', 'R-STALEVAR'), ('C01-y3', 'R-GUARDOBJ'), ('C01-z1', 'R-ATTRLISTKIND'), ('C01-z3', 'R-NEWONLY'), ('C01-q1', 'R-NEWLEN'), ('C01-q2', 'R-NDSTORE')],
  'C02': [('C02-x3', 'R-FUZZYDIM'), ('C02-x2', 'R-ZIPAXIS'), ('C02-x1', 'R-FILLLOOK'), ('C02-y2', 'R-DTYPEFULL'), ('C02-z1', 'R-NONEGUARD'), ('C02-z2', 'R-ADVIDX'), ('C02-z3', 'R-NONEGUARD'), ('C02-q1', 'R-STOPPLUS1'), ('C02-q2', 'R-STOPPLUS1'), ('C02-q3', 'R-SELECTORRO'), ('C04-q1', 'R-ADVIDX')],
